@@ -111,14 +111,21 @@ class VArray:
 
 class VVec:
     """ArrayVec / Vec: len (Lin), cap (Lin), init (Lin: number of initialised elements >= len)"""
-    __slots__ = ("kind", "len", "cap", "key", "elems")
+    __slots__ = ("kind", "len", "cap", "key", "elems", "data")
 
-    def __init__(self, kind, len_, cap, key=None, elems=None):
+    def __init__(self, kind, len_, cap, key=None, elems=None, data=None):
         self.kind = kind
         self.len = len_
         self.cap = cap
         self.key = key
-        self.elems = elems
+        self.elems = elems  # element type
+        self.data = data  # contents of a small byte ArrayVec: tuple of CAP values (None = unknown byte)
+
+    def with_len(self, n):
+        return VVec(self.kind, n, self.cap, self.key, self.elems, self.data)
+
+    def with_data(self, data, n=None):
+        return VVec(self.kind, self.len if n is None else n, self.cap, self.key, self.elems, data)
 
     def __repr__(self):
         return "Vec(%s,len=%s,cap=%s)" % (self.kind, show_lin(self.len), show_lin(self.cap))
